@@ -32,4 +32,15 @@ def plan(ctx, tier, seed):
                         units=[u for u in libhdf_units() if not u.endswith("hchunks.c")], models=["memio", "herr", "memloops", "printf"], defs=d,
                         unwind=8, kind="K", timeout=900, field_sens=64, symbolic="byte position, transfer length, bytes done",
                         bound="shape %s, all chunk shapes, nt %d" % (dims, nt), group="C04.K1"))
+    # chunked element vs contiguous twin (whole library)
+    S = [("3x3c2x2", 3, 3, 2, 2, 1, (1, 5), (6, 3), (0, 9), 1), ("4x5c2x3.cross", 4, 5, 2, 3, 1, (3, 4), (0, 0), (2, 7), 0),
+         ("2x4c2x3.nt2", 2, 4, 2, 3, 2, (2, 10), (0, 0), (0, 16), 1), ("3x4c1x3.cache1", 3, 4, 1, 3, 1, (0, 12), (5, 4), (3, 8), 0)]
+    for nm, d0, d1, c0, c1, nts, w1, w2, r1, reopen in S:
+        d = {"D0": d0, "D1": d1, "C0": c0, "C1": c1, "NTS": nts, "W1P": w1[0], "W1N": w1[1], "W2P": w2[0], "W2N": w2[1], "R1P": r1[0], "R1N": r1[1],
+             "REOPEN": reopen, "MEMIO_DISK_SZ": 8192}
+        if "cache1" in nm:
+            d["MAXCACHE"] = 1
+        hs.append(H("C04.S1." + nm, "C04", src="harness/C04/s1_chunked.c", units=libhdf_units(), models=["memio", "herr", "memloops", "printf"], defs=d,
+                    unwind=5000, kind="S", timeout=1800, symbolic="data bytes, fill value", bound="%dx%d in %dx%d chunks" % (d0, d1, c0, c1), group="C04.S1",
+                    hang_is_violation=True))
     return hs
